@@ -375,4 +375,7 @@ def run(ck, tier):
     from ..share import import_findings as _imp3
     ck.rule('R13', 'the RTU frame length oracle is a function of the frame bytes only (shared with C03 R3)')
     _imp3(ck, 'C03', 'R13', ('R3',), 'the messages delivered depend on how the stream was cut into reads', detail_prefixes=('rtuFrameSize-shape', 'size-from-buffered-length', 'custom-size-override', 'fifo-size', 'mei-size-shape', 'base-size-shape'))
+    ck.rule('R15', 'whether a buffered complete frame is looked at does not depend on how its bytes arrived: the readiness test of the delimiter framers is monotone under appending (shared with C11 R11)')
+    from .c11 import r11_readiness_is_monotone as _r11m
+    ck.guard(_r11m, ck, cx, 'R15')
     return cx.idx
